@@ -290,15 +290,19 @@ def resolve_all(eng, fn: FunctionInfo, e: ast.AST, limit: int = 24, depth: int =
     import itertools
     defs_of = eng.flow._defs(fn)
 
-    def alts(name: str, d: int) -> Optional[List[ast.AST]]:
+    def alts(name: str, d: int, at: Optional[ast.AST] = None) -> Optional[List[ast.AST]]:
         if name in fn.params or d <= 0:
             return None
         ds = defs_of.get(name)
         if not ds:
             return None
+        # flow-sensitive at the expression asked about: of several plain assignments only those that reach it count
+        reach = eng.flow._reaching(fn, name, at, ds) if at is not None else None
         out = []
         for kind, node, extra in ds:
             if kind == "assign" and isinstance(node, ast.expr) and not extra:
+                if reach is not None and id(node) in eng.flow._rhs_stmt and id(node) not in reach[0]:
+                    continue
                 out.append(node)
             elif kind in ("mut-call", "mut-set"):
                 continue
@@ -310,14 +314,14 @@ def resolve_all(eng, fn: FunctionInfo, e: ast.AST, limit: int = 24, depth: int =
         names = []
         for x in ast.walk(node):
             if isinstance(x, ast.Name) and isinstance(x.ctx, ast.Load) and x.id not in names and x.id not in stack:
-                if alts(x.id, d) is not None:
+                if alts(x.id, d, node if not stack else None) is not None:
                     names.append(x.id)
         if not names:
             return [node]
         choices = []
         for nm in names:
             sub = []
-            for a in alts(nm, d) or []:
+            for a in alts(nm, d, node if not stack else None) or []:
                 sub.extend(expand(a, d - 1, stack + (nm,)))
             choices.append(sub[:limit])
         res = []
